@@ -192,7 +192,7 @@ func runC16(c *Ctx) {
 		{
 			var rest []*Path
 			for _, p := range ps {
-				if !c16PushInPlace(p) {
+				if !c16PushInPlace(p) && !c16PushPresized(p) {
 					rest = append(rest, p)
 				}
 			}
@@ -413,4 +413,55 @@ func c16PushInPlace(p *Path) bool {
 		}
 	}
 	return ext != nil && wrote == 1
+}
+
+// c16PushPresized: the path knows the stack empty (cap(*s) == 0 or len(*s) == 0), replaces *s by a fresh empty slice
+// (whatever its capacity) and appends the value to that: the stack then holds exactly the pushed value, which is
+// what append(*s, value) gives on an empty stack.
+func c16PushPresized(p *Path) bool {
+	if p.End != EndReturn {
+		return false
+	}
+	empty := false
+	for _, cd := range p.Conds {
+		pl, kind, isInt := cd.Rel().IntNorm()
+		if !isInt || kind != "=" || len(pl.Atoms) != 1 {
+			continue
+		}
+		for _, at := range pl.Atoms {
+			if at.Op == "builtin" && (at.Sym == "cap" || at.Sym == "len") && len(at.Args) == 1 && at.Args[0].Op == "load" && isParam(at.Args[0].Args[0], 0) && pl.Equal(canonSign(ToPoly(at))) {
+				empty = true
+			}
+		}
+	}
+	if !empty {
+		return false
+	}
+	var fresh, app *Term
+	holds := false
+	for i := range p.Events {
+		e := &p.Events[i]
+		switch {
+		case e.Kind == "call" && (e.Name == "builtin.len" || e.Name == "builtin.cap" || e.Name == "builtin.append"):
+		case e.Kind == "store" && e.Addr.Op == "iaddr" && e.Addr.Args[0].Op == "alloc":
+			if isParam(e.Val, 1) {
+				holds = true
+			}
+		case e.Kind == "store" && isParam(e.Addr, 0):
+			v := e.Val
+			switch {
+			case fresh == nil && app == nil && v.Op == "mkslice" && len(v.Args) >= 1 && v.Args[0].IsConst("0"):
+				fresh = v
+			case fresh == nil && app == nil && v.Op == "slice" && len(v.Args) == 4 && v.Args[0].Op == "alloc" && (v.Args[1].Op == "none" || v.Args[1].IsConst("0")) && v.Args[2].IsConst("0"):
+				fresh = v // make with constant length and capacity: an empty window of a fresh array
+			case fresh != nil && app == nil && v.Op == "builtin" && v.Sym == "append" && len(v.Args) == 2 && v.Args[0].Key() == fresh.Key():
+				app = v
+			default:
+				return false
+			}
+		default:
+			return false
+		}
+	}
+	return fresh != nil && app != nil && holds
 }
